@@ -42,6 +42,7 @@ Status on the current tree (`pinned` = two known execution-only sites):
 import Aergo.Lemmas.Admit
 import Aergo.Lemmas.AdmitReach
 import Aergo.Gen.PartialOps
+import Aergo.Gen.PartialOpsSelf
 
 namespace Aergo.Props.C14
 open Aergo.Json Aergo.Admit
@@ -78,6 +79,11 @@ theorem conf_codec_known : Aergo.Gen.PartialOps.shapes = knownShapes := by rfl
 (site `cDeser0`; what `SetData(key, nil)` leaves behind after a commit) cannot be written: `ConfRecOk` is an invariant. -/
 theorem serializeConf_nonempty (c : Conf) : 1 ≤ (serConf c).length := by
   simp [serConf]
+
+/-- Self-test of the extractor on the synthetic corpus (`corpus/C14`): pairs that only re-express a dispatch
+(`if … else if` chain / `switch x` / tag-less `switch`) or move statements into a private single-caller helper give the same
+accounted output; pairs that add a label, add an operation or lose a guard while doing so do not. -/
+theorem extractor_selftest : Aergo.Gen.PartialOpsSelf.cases.all (fun c => c.2.1 == c.2.2) = true := by decide
 
 /-- `allSites` lists every constructor of `Site`. -/
 theorem allSites_complete (s : Site) : s ∈ allSites := by cases s <;> decide
